@@ -251,6 +251,7 @@ Proof.
   induction fuel as [|f IH]; intros b b' H; cbn [ws_loop] in H.
   - destruct (wslen b =? 0); [|discriminate H]. inversion H; subst. (split; reflexivity).
   - destruct (wslen b =? 0); [inversion H; subst; (split; reflexivity)|].
+    destruct (wwidth b =? 0); [inversion H; subst; (split; reflexivity)|].
     destruct (spacetag b) as [st|]; [|discriminate H].
     cbv zeta in H. bd H b2 H2. apply IH in H.
     eapply same_trans; [|exact H].
@@ -535,6 +536,7 @@ Proof.
   induction fuel as [|f IH]; intros b b' H; cbn [ws_loop] in H.
   - destruct (wslen b =? 0); [|discriminate H]. inversion H; reflexivity.
   - destruct (wslen b =? 0); [inversion H; reflexivity|].
+    destruct (wwidth b =? 0); [inversion H; reflexivity|].
     destruct (spacetag b) as [st|]; [|discriminate H].
     cbv zeta in H. bd H b2 H2. apply IH in H. rewrite H.
     change (wword (set_space b2 (spacetag b2) (wslen b2 - N.min (wslen b) (wwidth b))))
